@@ -337,6 +337,8 @@ type vfWorld struct {
 	noSnap   bool
 	tsnRef   map[[2]uint32]vfFragRef // (sender, absolute TSN) -> fragment it carries
 	refUsed  map[[3]int]bool
+	tokens   bool      // the scenario starts from exchanged tokens (set before cfgEvent)
+	snapTok  [2][]byte // out-of-band tokens (SNAP start): when set, start() passes WithSNAP(local, remote)
 	rt       bool // real time, outside any synctest bubble (multi-writer family only)
 	stopped  bool
 	nWire    int
@@ -502,7 +504,7 @@ func vfNewWorld(o vfWorldOpt) *vfWorld {
 }
 
 func (w *vfWorld) cfgEvent() {
-	m := map[string]any{"ev": "cfg", "label": w.label}
+	m := map[string]any{"ev": "cfg", "label": w.label, "tokens": w.tokens}
 	for i, n := range []string{"A", "B"} {
 		c := w.ep[i].cfg
 		m[n] = map[string]any{"il": c.IL, "zc": c.ZC, "mtu": int(c.MTU), "buf": int(c.Buf), "maxmsg": int(c.MaxMsg),
@@ -568,6 +570,24 @@ func init() {
 	}
 }
 
+// genTokens creates the out-of-band tokens of both endpoints (start "from exchanged tokens": no handshake
+// packets; every association is created with WithSNAP(own token, peer's token)). The scripted randomness gives
+// each token the configured initial TSN and tag.
+func (w *vfWorld) genTokens() error {
+	for i := 0; i < 2; i++ {
+		c := w.ep[i].cfg
+		saved := globalMathRandomGenerator
+		globalMathRandomGenerator = &vfScriptedRand{vals: []uint32{c.InitTSN, c.Tag}, fall: rand.New(rand.NewSource(int64(i) + 99))}
+		tok, err := GenerateOutOfBandToken(WithEnableInterleaving(c.IL), WithEnableZeroChecksum(c.ZC), WithMaxReceiveBufferSize(c.Buf))
+		globalMathRandomGenerator = saved
+		if err != nil {
+			return err
+		}
+		w.snapTok[i] = tok
+	}
+	return nil
+}
+
 func (w *vfWorld) start(i int) {
 	e := w.ep[i]
 	saved := globalMathRandomGenerator
@@ -583,6 +603,9 @@ func (w *vfWorld) start(i int) {
 		// The PUBLIC connect functions are called; the association object reaches the harness through the
 		// build-tag guarded creation hook (verifOnCreate), keyed by the transport it was given.
 		opts := w.options(i)
+		if w.snapTok[i] != nil {
+			opts = append(opts, WithSNAP(w.snapTok[i], w.snapTok[1-i]))
+		}
 		w.tr.emit(map[string]any{"ev": "api", "ep": i, "op": "connect-call", "t": w.now()})
 		if e.cfg.Server {
 			so := make([]ServerOption, len(opts))
